@@ -292,12 +292,14 @@ def run(ctx):
             "AVG only at the top level; dataset clauses name catalogued graphs",
             "queries the parser rejects are not C01's (counted per stream as rejected_by_parser)",
             "NOT proved, covered by the correspondence with the executable Spec only (the _partial list of coq/Sparql/C01.v): "
-            "(p1) sub-selects with LIMIT, GROUP BY or aggregates, and the value of SUM / MIN / MAX / AVG at top level and in sub-selects; "
+            "(p1) sub-selects with LIMIT as part of C01_pattern (component theorems C01_cut_determined / C01_cut_is_algebra hold under conditions on the "
+            "solutions), sub-selects that aggregate outside the legal shape (group keys + aggregate aliases projected), LIMIT together with aggregates at "
+            "top level, the decimal rendering of AVG (compared numerically, 1e-9, top level only); "
             "(p2) FILTER / BIND inside GRAPH ?g that mention ?g while the group's own pattern binds ?g; "
             "(p3) single-element groups nested twice or more around a lone BIND; "
             "(p4) ORDER BY keys over columns that mix numbers with other terms or are partly unbound (comparator assumed transitive on the "
-            "key columns), ordering comparisons on non-integers.  Per stream, inside_hypotheses_of_C01_pattern(_syntactic) counts the cases "
-            "whose WHERE pattern is inside the hypotheses of the proved theorems.",
+            "solutions at hand), ordering comparisons on non-integers, aggregated variables with non-integer values.  Per stream, "
+            "inside_hypotheses_of_C01_pattern(_syntactic) counts the cases whose WHERE pattern is inside the hypotheses of the proved theorems.",
         ])
 
 
